@@ -266,6 +266,10 @@ func (f *Frame) lookupName(name string, at *ssa.BasicBlock, atI ssa.Instruction)
 				if li.ord != ord {
 					continue
 				}
+				if g, ok := f.vc.eng.ct.Ghosts[name[:k]]; ok && li.headSt != nil {
+					// ghost$N: the ghost's value at the beginning of the current iteration of loop N
+					return Val{K: KSpec, T: f.vc.heapGet(li.headSt, "G."+name[:k], g.Sort)}, true
+				}
 				for _, in := range li.header.Instrs {
 					phi, ok := in.(*ssa.Phi)
 					if !ok {
@@ -814,6 +818,11 @@ func (f *Frame) checkBackEdge(li *loopInfo, from *ssa.BasicBlock, succIdx int, o
 	invs := f.loopInvariants(li)
 	for i, cl := range invs {
 		f.assertClause(cl, fmt.Sprintf("loop%d:invariant[%s]:preserved", li.ord, clauseLabel(cl, i)), "invariant", o.st, g, h, nil)
+	}
+	if f.con != nil {
+		for i, cl := range f.con.LoopStep[li.ord] {
+			f.assertClause(cl, fmt.Sprintf("loop%d:step[%s]", li.ord, clauseLabel(cl, i)), "invariant", o.st, g, h, nil)
+		}
 	}
 	if li.headSt != nil {
 		f.frameObls(o.st, li.headSt, li.allowed, fmt.Sprintf("@loop%d", li.ord), g, f.posString(blockPos(h)))
